@@ -98,7 +98,7 @@ AuthEvents(s) ==
           i \in {Info(1, "A", "L1", ""), Info(1, "A", "L1", "c1"), Info(2, "A", "L1", "c1"), Info(1, "B", "L1", "c1"), Info(1, "A", "L2", "c1"), Info(1, "A", "L1", "c2"),
                  [Info(1, "A", "L1", "c1") EXCEPT !.cfgOK = FALSE], Info(0, "A", "L1", "c1"), Info(1, "", "L1", "c1")}}
   \cup {Upd(a, p) : a \in Signers, p \in {[s.params EXCEPT !.execs = <<"e2">>], [s.params EXCEPT !.execs = <<"up:e2">>], [s.params EXCEPT !.admin = "x"], [s.params EXCEPT !.maxVals = 0],
-                           [s.params EXCEPT !.fw = <<"u1", "bad:notbech32">>], [s.params EXCEPT !.execs = <<"e1", "bad:notbech32">>], [s.params EXCEPT !.admin = "bad:empty"]}}
+                           [s.params EXCEPT !.fw = <<"u1", "bad:notbech32">>], [s.params EXCEPT !.fw = <<"u1", "bad:empty">>], [s.params EXCEPT !.execs = <<"e1", "bad:notbech32">>], [s.params EXCEPT !.admin = "bad:empty"]}}
   \cup {[type |-> "SpendFeePool", signer |-> a, to |-> "u3", denom |-> N1, amt |-> 1] : a \in Signers}
   \cup {[type |-> "ExecuteMessages", signer |-> a, msgs |-> ms] : a \in Signers,
           ms \in { << [type |-> "SpendFeePool", signer |-> "opchild", to |-> "u3", denom |-> N1, amt |-> 1] >>,
